@@ -89,6 +89,7 @@ pub fn configs(tier: Tier) -> Vec<Box<dyn Config>> {
     let sse2 = super::width() == 16;
     let q = tier == Tier::Quick;
     let mut v: Vec<Box<dyn Config>> = Vec::new();
+    v.push(Box::new(super::rehash::RehashGrammar { tier }));
     if q {
         v.push(closed(Plan::Zero, if sse2 { 12 } else { 11 }, tier));
         v.push(closed(Plan::Seq, 5, tier));
@@ -107,6 +108,8 @@ pub fn configs(tier: Tier) -> Vec<Box<dyn Config>> {
         v.push(seeded_plan(Plan::Tail, tier, false, 2));
         v.push(seeded_plan(Plan::Seq, tier, true, 1));
         if !sse2 {
+            // two tag classes starting at the last bucket: in-place rehash with swaps across the wrap-around
+            v.push(closed_core(Plan::Adv(2), 11, tier, true));
             v.push(closed_core(Plan::Last, 9, tier, false));
             v.push(closed_core(Plan::Max, 12, tier, false));
             v.push(closed_core(Plan::Zero, 12, tier, true));
